@@ -108,6 +108,7 @@ func (t *safeTimer) stop() {
 }
 
 func (t *safeTimer) reset(d time.Duration) {
+	d = verifTimer(t, d)
 	t.stop()
 	t.timer.Reset(d)
 	t.active = true
